@@ -24,6 +24,13 @@ let rec parse_ops o =
     let scs = split ';' inner in
     OMut (nat_of_int 2, nat_of_int (List.length scs), []) ::
     List.map (fun sc -> Hashtbl.replace ext_born !n_inserted (); incr n_inserted; OMut (nat_of_int 0, O, parse_script sc)) scs
+  end else if starts "iter(" o then begin
+    (* FromIterator (first operation, empty group): FutureGroup = new + extend (reserve + inserts); StreamGroup = with_capacity(len) + inserts,
+       which on an empty group of capacity 0 is the same state as reserve(len) *)
+    let inner = after "iter(" o in let inner = String.sub inner 0 (String.length inner - 1) in
+    let scs = split ';' inner in
+    OMut (nat_of_int 2, nat_of_int (List.length scs), []) ::
+    List.map (fun sc -> Hashtbl.replace ext_born !n_inserted (); incr n_inserted; OMut (nat_of_int 0, O, parse_script sc)) scs
   end else begin
     (if starts "ins(" o then incr n_inserted);
     [parse_op o]
